@@ -604,3 +604,36 @@ Proof.
   pose proof (next_id_never_rewinds c e) as H1. destruct (conn_step c e) as [c1 o1]. cbn [fst] in H1.
   specialize (IH c1). destruct (conn_run c1 r) as [c2 o2]. cbn [fst] in *. lia.
 Qed.
+
+(* ---- a new stream uses the settings held at the open step ----
+   Whatever the machine held when the request was queued: the header block of a new stream is
+   cut by the MAX_FRAME_SIZE held at the EOpen step (every frame of it fits), its send window is
+   the INITIAL_WINDOW_SIZE held then, its id the next id then. *)
+Lemma cont_frames_le : forall fuel sid rest maxf, 1 <= maxf ->
+  Forall (fun f => match frame_len f with Some l => l <= maxf | None => True end) (cont_frames fuel sid rest maxf).
+Proof.
+  induction fuel as [|k IH]; intros sid rest maxf Hm; cbn [cont_frames]; [constructor|].
+  destruct (rest <=? 0); [constructor|]. constructor; [cbn; lia|apply IH; exact Hm].
+Qed.
+
+Lemma hdr_frames_le : forall sid hlen maxf prio es, 0 <= prio < maxf ->
+  Forall (fun f => match frame_len f with Some l => l <= maxf | None => True end) (hdr_frames sid hlen maxf prio es).
+Proof.
+  intros sid hlen maxf prio es Hp. unfold hdr_frames. constructor; [cbn; lia|apply cont_frames_le; lia].
+Qed.
+
+Theorem new_stream_uses_current_settings : forall c hlen es c' out,
+  0 <= cc_init_win c <= 2147483647 -> 0 <= cc_prio_len c ->
+  conn_step c (EOpen hlen es) = (c', out) -> out <> [] ->
+  out = cl (hdr_frames (cc_next_id c) hlen (cc_max_frame c) (cc_prio_len c) es) /\
+  Forall (fun f => match frame_len f with Some l => l <= cc_max_frame c | None => True end)
+         (hdr_frames (cc_next_id c) hlen (cc_max_frame c) (cc_prio_len c) es) /\
+  exists s, cc_streams c' = s :: cc_streams c /\ cs_id s = cc_next_id c /\ cs_flow s = cc_init_win c.
+Proof.
+  intros c hlen es c' out Hiw Hp H Hne.
+  destruct (new_stream_window_current c hlen es c' out Hiw H Hne) as (s & A & B & C0 & _).
+  cbn [conn_step] in H.
+  destruct (negb (cc_dead c) && (active_count (cc_streams c) <? cc_max_streams c) && (1 <=? hlen)
+            && (cc_prio_len c <? cc_max_frame c) && (cc_next_id c <? 2147483647)) eqn:G; inversion H; subst; [|contradiction].
+  split; [reflexivity|]. split; [apply hdr_frames_le; lia|]. exists s. auto.
+Qed.
